@@ -22,6 +22,10 @@ type RetryTransaction struct {
 	retryCallback RTRetryCallback
 	State         interface{}
 	Data          interface{}
+	// Paused, if set, is consulted every time the retry delay passes. While
+	// it returns true, the delay is restarted without the retry being
+	// done or counted (e.g. the peer is known to be asleep).
+	Paused func() bool
 }
 
 // Retry callback type.
@@ -115,6 +119,11 @@ func (t *RetryTransaction) timeout() {
 
 	// The transaction could have been finished while the timer was firing.
 	if t.isDone() {
+		return
+	}
+
+	if t.Paused != nil && t.Paused() {
+		t.restartTimer()
 		return
 	}
 
